@@ -1233,7 +1233,7 @@ func (p *parser) typeDefDecl() ast.Declaration {
 
 // TODO: add support for struct aliases
 func (p *parser) aliasDecl() ast.Statement {
-	begin := p.peekN(-1)
+	begin := p.peekN(-2) // the article in front of 'Alias'
 	if begin.Type != token.DER {
 		p.err(ddperror.SYN_GENDER_MISMATCH, begin.Range, fmt.Sprintf("Falscher Artikel, meintest du %s?", token.DER))
 	}
